@@ -51,7 +51,16 @@ func (r *Rng) Intn(n int) int {
 func (r *Rng) Float64() float64 { return float64(r.Uint64()>>11) / (1 << 53) }
 
 // Read implements io.Reader: the stream that replaces crypto/rand.Reader inside a run.
+//
+// One-byte reads do not advance the stream: Go's key generators (ecdh/X25519, ecdsa, rsa) call
+// randutil.MaybeReadByte, which reads one byte from the source or not, chosen by the runtime's random select,
+// precisely to defeat reproducible key generation. Answering those reads with a constant keeps everything
+// after them (ephemeral keys, nonces, ids) a function of the seed.
 func (r *Rng) Read(p []byte) (int, error) {
+	if len(p) == 1 {
+		p[0] = 0
+		return 1, nil
+	}
 	for i := 0; i < len(p); {
 		v := r.Uint64()
 		for k := 0; k < 8 && i < len(p); k++ {
